@@ -93,8 +93,19 @@ func runC26(c *Ctx) error {
 	if c.Thorough() {
 		n = 800
 	}
-	keys := []string{"ka", "kb", "kc", "kd"}
+	smallKeys := []string{"ka", "kb", "kc", "kd"}
+	bigKeys := append([]string{}, smallKeys...)
+	for j := 0; j < 360; j++ {
+		bigKeys = append(bigKeys, fmt.Sprintf("x%03d", j))
+	}
 	for i := 0; i < n; i++ {
+		// every tenth history has blocks of more records than one batch of the leveldb merge (333)
+		keys := smallKeys
+		big := i%10 == 3
+		if big {
+			keys = bigKeys
+			c.Count("chains", "big-blocks")
+		}
 		mapIDs, proofID, valueID, polID, ops := map[string]string{}, map[string]string{}, map[string]string{}, map[string]string{}, map[string]util.Hash{}
 		d := &c19db{env: env, st: leveldbstorage.NewMemStorage(), permst: leveldbstorage.NewMemStorage(),
 			mapIDs: mapIDs, proofID: proofID, valueID: valueID, polID: polID, ops: ops, stcache: (i % 2) * 100}
@@ -125,7 +136,7 @@ func runC26(c *Ctx) error {
 			case k < 6 || next == 0 || (long && k < 8 && st%3 != 0):
 				b := &c19block{Height: next, States: map[string]string{}, SufH: -1}
 				for _, key := range keys {
-					if c.Chance(1, 3) {
+					if c.Chance(1, 3) || (big && len(key) == 4) {
 						vcount++
 						b.States[key] = fmt.Sprintf("v%d", vcount)
 					}
